@@ -306,7 +306,8 @@ package protocol
 //@ func (*pageBuffer).refTo
 //@   option noframe
 //@   option only post callsite callsite-reach
-//@   modifies heap
+//@   assume refTo writes only the reference it fills (its page list, offset, length) and the reference counts of the pages it lists
+//@   modifies ref.pages, ref.offset, ref.length, ref.$held, elems(ref.pages), region(page.refc)
 //@   callsite (contiguousPages).ref requires same($0, ref.pages)
 //@   callsite (contiguousPages).ref modifies ref.$held
 //@   callsite (contiguousPages).ref ensures ref.$held
